@@ -774,3 +774,35 @@ def _m54():
     from bfg9000 import build as bbuild
     _patch_source(bbuild, 'load_toolchain', 'if regenerating:\n        env.reload()\n    else:',
                   'if regenerating is Regenerating.true:\n        env.reload()\n    elif not regenerating:')
+
+
+@mutant('installify_ignores_directory')
+def _m55():
+    from bfg9000.builtins import install as bi
+    orig = bi.installify
+
+    def installify(file, *, directory=None, cross=None):
+        return orig(file, directory=None, cross=cross)
+    bi.installify = installify
+
+
+@mutant('install_no_destdir')
+def _m56():
+    from bfg9000.builtins import install as bi
+    _patch_source(bi, 'installify', 'destdir=not cross', 'destdir=False')
+
+
+@mutant('uninstall_wrong_root')
+def _m57():
+    # uninstall removes the *build* path instead of the installed one
+    from bfg9000.builtins import install as bi
+    _patch_source(bi, '_uninstall_files', 'return [dst.path]', 'return [src.path]')
+
+
+@mutant('install_deps_shallow')
+def _m58():
+    from bfg9000.builtins import install as bi
+    _patch_source(bi.InstallOutputs, '_add_implicit',
+                  'self._add_implicit(dep, directory)',
+                  'self.host.setdefault(dep, installify(dep, directory=directory)); '
+                  'self.target.setdefault(dep, installify(dep, directory=directory, cross=self.env))')
